@@ -1,5 +1,6 @@
 """C04 (one clause): select1(k)/select0(k) refuse k >= count with an error and get/rank refuse an
 out-of-range position before any unchecked word access. Numeric correctness is NOT decided."""
+from vlib import fixtures
 from props import _refusal_common as rc
 
 FILES = ['src/succinct/bit_vector.rs', 'src/succinct/rank_select/mod.rs', 'src/succinct/rank_select/interleaved.rs',
@@ -12,6 +13,7 @@ FILES = ['src/succinct/bit_vector.rs', 'src/succinct/rank_select/mod.rs', 'src/s
 
 def run(ctx):
     fx = ctx.facts("default")
+    fixtures.run(ctx, ['taint'])
     rc.accessors(ctx, fx, FILES, r'^select[01](_.*)?$', "R-GUARD.refusal", all_success=True)
     ctx.floor("R-GUARD.refusal.accessors", 15)
     rc.unsafe_sinks(ctx, fx, FILES, "R-GUARD")
